@@ -28,7 +28,7 @@ func c09Combos() []c09Combo {
 	var out []c09Combo
 	for _, f := range []string{"hwmon", "file", "cmd"} {
 		for _, s := range []string{"hwmon", "file", "cmd"} {
-			for _, c := range []string{"linear", "pid", "function"} {
+			for _, c := range []string{"linear", "pid", "function", "fn-avg-pid", "fn-delta-pids"} {
 				out = append(out, c09Combo{f, s, c})
 			}
 		}
@@ -49,6 +49,7 @@ func c09Faults(c c09Combo) []world.FaultSpec {
 			}
 		}
 	}
+	_ = add
 	// sensor
 	sensorFlags := []string{"mon"}
 	if c.curve != "linear" {
@@ -59,6 +60,18 @@ func c09Faults(c c09Combo) []world.FaultSpec {
 			add("exec", "sensor:sa", fl, []int{0, 1, 6}, execKinds)
 		} else {
 			add("read", "sensor:sa", fl, []int{0, 1, 6}, readKinds)
+		}
+	}
+	if c.curve == "fn-delta-pids" {
+		// every member of the function curve fails in the same cycle: two consecutive reads
+		n0 := len(out)
+		if c.sensor == "cmd" {
+			add("exec", "sensor:sa", "curve", []int{0, 4}, []string{"exit1", "garbage", "timeout"})
+		} else {
+			add("read", "sensor:sa", "curve", []int{0, 4}, []string{"eio", "garbage", "missing"})
+		}
+		for i := n0; i < len(out); i++ {
+			out[i].Count = 2
 		}
 	}
 	if c.sensor != "cmd" {
@@ -114,7 +127,9 @@ func genC09(seed uint64, pairs bool) *world.Scenario {
 	}
 	sc, r := baseScenario(fam, seed)
 	total := c09Total()
-	idx := int(seed % uint64(total))
+	// consecutive seeds jump through the whole enumeration (7919 is prime and does not divide total),
+	// so a quick window samples every combination; total consecutive seeds still cover everything
+	idx := int((seed % uint64(total)) * 7919 % uint64(total))
 	combo, fault := c09Pick(idx)
 	sc.Variant = fmt.Sprintf("%s/%s/%s", combo.fan, combo.sensor, combo.curve)
 	sc.Params["index"], sc.Params["total"] = float64(idx), float64(total)
@@ -130,6 +145,15 @@ func genC09(seed uint64, pairs bool) *world.Scenario {
 		sc.Curves = append(sc.Curves, world.CurveSpec{ID: "ca", Kind: "linear", Sensor: "sa", Min: 20, Max: 80})
 	case "pid":
 		sc.Curves = append(sc.Curves, world.CurveSpec{ID: "ca", Kind: "pid", Sensor: "sa", PID: &world.PidSpec{SetPoint: 40, P: -0.05, I: -0.005, D: -0.005}})
+	case "fn-avg-pid":
+		sc.Curves = append(sc.Curves,
+			world.CurveSpec{ID: "ca_pid", Kind: "pid", Sensor: "sa", PID: &world.PidSpec{SetPoint: 40, P: -0.05, I: -0.005, D: -0.005}},
+			world.CurveSpec{ID: "ca", Kind: "function", Func: "average", Members: []string{"ca_pid"}})
+	case "fn-delta-pids":
+		sc.Curves = append(sc.Curves,
+			world.CurveSpec{ID: "ca_pid1", Kind: "pid", Sensor: "sa", PID: &world.PidSpec{SetPoint: 40, P: -0.05, I: -0.005, D: -0.005}},
+			world.CurveSpec{ID: "ca_pid2", Kind: "pid", Sensor: "sa", PID: &world.PidSpec{SetPoint: 55, P: -0.03, I: -0.001, D: 0}},
+			world.CurveSpec{ID: "ca", Kind: "function", Func: "delta", Members: []string{"ca_pid1", "ca_pid2"}})
 	case "function":
 		sc.Curves = append(sc.Curves,
 			world.CurveSpec{ID: "ca_lin", Kind: "linear", Sensor: "sa", Min: 20, Max: 80},
